@@ -115,6 +115,9 @@ class LiveHistory:
         ev["attr_chain"] = list(reversed(dedup))
         nonempty_updates = [r for r in hook if r["ev"] == "parsed" and r["n_changes"] > 0]
         ev["n_updates_with_system"] = len([r for r in nonempty_updates if r["has_system"]])
+        ev["n_update_begin"] = len([r for r in hook if r["ev"] == "update_begin"])
+        ev["n_nonempty_updates"] = len(nonempty_updates)
+        ev["edit_kind"] = edit[0] + (":" + edit[3] if edit[0] == "listop" else "")
         # whether the edit is an edit of the live system is decided on the abstract model (some changed object was reachable
         # from the system before the edit), not by asking the implementation
         parts = edit[1] if edit[0] == "group" else [edit]
